@@ -65,6 +65,8 @@ def positions(chain, base):
         out.append(("class_field", {"k": "cls", "c": "FW"}, {"k": "cls", "c": "FP"}))
         # the wrapped member follows a plain member of the same type: reached a second time in one graph
         out.append(("class_field_after_plain", {"k": "cls", "c": "GW"}, {"k": "cls", "c": "GP"}))
+        # the same, with the holder class and the wrapper declared in another module than the wrapped type
+        out.append(("class_field_cross_module", {"k": "cls", "c": "HW"}, {"k": "cls", "c": "HP"}))
     if chain[0] not in ("final", "classvar"):
         out.append(("tuple_plain_then_wrapped", {"k": "tup", "xs": [T, LIST(W), W]}, {"k": "tup", "xs": [T, LIST(T), T]}))
     if inner and base.get("k") == "cls" and base.get("c") == "R1":
@@ -81,6 +83,12 @@ def case_defs(chain, base):
         defs["FP"] = {"flavour": "dataclass", "module": "m1", "py": "FP", "fields": [["n", P("int"), False], ["x", base, False]]}
         defs["GW"] = {"flavour": "dataclass", "module": "m1", "py": "GW", "fields": [["a", base, False], ["x", W, False]]}
         defs["GP"] = {"flavour": "dataclass", "module": "m1", "py": "GP", "fields": [["a", base, False], ["x", base, False]]}
+        sub_a = {"flavour": "dataclass", "module": "m2", "py": "SubA", "fields": [["p", base, False]]}
+        defs["SubA"] = sub_a
+        defs["SubW"] = {"flavour": "dataclass", "module": "m2", "py": "SubW", "fields": [["q", W, False]]}
+        defs["SubP"] = {"flavour": "dataclass", "module": "m2", "py": "SubP", "fields": [["q", base, False]]}
+        defs["HW"] = {"flavour": "dataclass", "module": "m2", "py": "HW", "fields": [["a", {"k": "cls", "c": "SubA"}, False], ["b", {"k": "cls", "c": "SubW"}, False]]}
+        defs["HP"] = {"flavour": "dataclass", "module": "m2", "py": "HP", "fields": [["a", {"k": "cls", "c": "SubA"}, False], ["b", {"k": "cls", "c": "SubP"}, False]]}
     if inner:
         defs["RW"] = {"flavour": "dataclass", "module": "m1", "py": "RW",
                       "fields": [["v", P("int"), False], ["nxt", OPT(wrap(inner, {"k": "cls", "c": "RW"})), True]]}
@@ -90,7 +98,10 @@ def case_defs(chain, base):
 
 
 CALLERS = '''
-import typelib
+import typelib, dataclasses
+@dataclasses.dataclass
+class Zed:
+    zz: int
 def _call(fn, ref, x, depth):
     if depth:
         return _call(fn, ref, x, depth - 1)
@@ -105,7 +116,8 @@ def ma(ref, x, depth=0):
 def norm(out):
     """Twin classes FW/FP and RW/RP are the same class up to their name."""
     s = json.dumps(out)
-    for a, b in (("m1.FW", "m1.F"), ("m1.FP", "m1.F"), ("m1.RW", "m1.R"), ("m1.RP", "m1.R"), ("m1.GW", "m1.G"), ("m1.GP", "m1.G")):
+    for a, b in (("m1.FW", "m1.F"), ("m1.FP", "m1.F"), ("m1.RW", "m1.R"), ("m1.RP", "m1.R"), ("m1.GW", "m1.G"), ("m1.GP", "m1.G"),
+                 ("m2.HW", "m2.H"), ("m2.HP", "m2.H"), ("m2.SubW", "m2.Sub"), ("m2.SubP", "m2.Sub")):
         s = s.replace(a, b)
     return json.loads(s)
 
@@ -155,20 +167,34 @@ def collect(ctx: Ctx, quick: bool):
                             ("string_nested_call", lambda fn, x: fn("REFNAME", x, 3)),
                             ("forwardref", lambda fn, x: fn(typing.ForwardRef("REFNAME", module=m1.__name__, is_class=True), x)),
                             ("string_qualified", lambda fn, x: fn(f"{m1.__name__}.REFNAME", x))]
+                if pos == "root" and chain[0] not in ("final", "classvar"):
+                    # a ForwardRef object naming the wrapper, used as a collection argument: list[ForwardRef("W", module=m)]
+                    # (by the wrapper's own name: a reference through a second binding of the object is another matter)
+                    wname = getattr(annW, "__name__", None)
+                    if wname and getattr(m1, wname, None) is annW:
+                        origins.append(("forwardref_in_list",
+                                        lambda fn, x, wname=wname: (
+                                            typelib.marshal([x], t=list[typing.ForwardRef(wname, module=m1.__name__, is_class=True)])
+                                            if fn is m1.ma else
+                                            typelib.unmarshal(list[typing.ForwardRef(wname, module=m1.__name__, is_class=True)], [x]))))
+                    # a string that names the module twice: "m.W | m.Zed", against Union[T, Zed]
+                    origins.append(("string_qualified_union", lambda fn, x: fn(f"{m1.__name__}.REFNAME | {m1.__name__}.Zed", x)))
             ins = inputs_for(Tt, env, rng)
             for oname, call in origins:
                 if quick and oname != "object" and pos not in ("root", "class_field") and rng.random() < 0.6:
                     continue
                 for kind, x in ins:
-                    if oname.startswith("string") or oname == "forwardref":
+                    if oname.startswith("string") or oname.startswith("forwardref"):
                         clear_typelib_caches()       # REFNAME is rebound per position; references are memoised by name
+                    plainT = typing.Union[annT, m1.Zed] if oname == "string_qualified_union" else annT
+                    inlist = oname == "forwardref_in_list"
                     if kind == "value":
                         a, _ = vs.out_of(call, m1.ma, x) if oname != "object" else vs.out_of(typelib.marshal, x, t=annW)
-                        b, _ = vs.out_of(typelib.marshal, x, t=annT)
+                        b, _ = vs.out_of(typelib.marshal, [x], t=list[annT]) if inlist else vs.out_of(typelib.marshal, x, t=plainT)
                         op = "marshal"
                     else:
                         a, _ = vs.out_of(call, m1.um, x) if oname != "object" else vs.out_of(typelib.unmarshal, annW, x)
-                        b, _ = vs.out_of(typelib.unmarshal, annT, x)
+                        b, _ = vs.out_of(typelib.unmarshal, list[annT], [x]) if inlist else vs.out_of(typelib.unmarshal, plainT, x)
                         op = "unmarshal"
                     events.append({"ev": "pair", "a": norm(a), "b": norm(b)})
                     meta.append({"base": bname, "chain": list(chain), "pos": pos, "origin": oname, "op": op, "input": repr(x)[:80]})
@@ -205,7 +231,8 @@ def run(ctx: Ctx) -> Outcome:
            "rule": "wrapper chains of length <=3 over NewType / TypeAliasType(value) / TypeAliasType('string') with Final and ClassVar where "
                    "Python permits x 10 base types (scalars, containers, a dataclass, a recursive dataclass, an enum, a dotted source spelling) "
                    "x positions (root, list argument, mapping value, tuple member, union member, class field, recursive back-edge) x reference "
-                   "origins (object, string in the defining module, string from 3 nested calls, ForwardRef(module=), module-qualified string) x "
+                   "origins (object, string in the defining module, string from 3 nested calls, ForwardRef(module=), module-qualified string, a "
+                   "string naming the module twice) x "
                    "inputs (valid values, wire forms, JSON text, junk) for marshal/unmarshal/encode/decode; non-trivial = the plain type accepts",
            "samples": [dict(meta[len(meta) // 3], event=events[len(events) // 3])]}
     return Outcome(level="model_checking", coverage=cov, violations=viol,
